@@ -87,9 +87,10 @@ def cases(rng, tier):
             yield dict(kind="mutated", s=mutate(rng, s), cfg=cfg, avail=avail)
         elif r < 0.93:
             # documented identities on random operands (default parser)
-            a = pc.render(pc.gen_inter(rng, 1, {}))
-            b = pc.render(pc.gen_inter(rng, 1, {}))
-            c = pc.render(pc.gen_atom(rng, 0, {}))
+            # operands: plain interaction chains of atoms (no numeric scalings: the identities are documented
+            # for terms, and `check_terms` adds scaling-specific rejections that are not part of them)
+            plain = lambda: " : ".join(pc.render(pc.gen_atom(rng, 0, {})) for _ in range(rng.choice([1, 1, 2])))
+            a, b, c = plain(), plain(), pc.render(pc.gen_atom(rng, 0, {}))
             yield dict(kind="identity", s=f"{a} * {b}", a=a, b=b, c=c, cfg=dict(pc.CFG_DEFAULT), avail=None)
         else:
             # specification forms: string vs list of summands vs lhs=/rhs= keywords
